@@ -58,27 +58,32 @@ Proof. exact chunks_all. Qed.
 Print Assumptions C09_chunks_full.
 
 (* Every iteration, whatever the blobs: the blobs it was offered are the DA's content of its height, and
-   its events are, on a successful fetch, exactly the genuine unseen headers/data in DA order up to the
-   first poisonous blob (see C09_no_crash_refuted), and none otherwise.  Junk of every kind, empty signed
-   data and already-seen items yield nothing. *)
+   its events are, on a successful fetch, exactly the genuine unseen headers/data in DA order, and none
+   otherwise.  Junk of every kind, signed data without txs or without metadata, and already-seen items
+   yield nothing. *)
 Theorem C09_emits_full : forall (c : cfg) (da : list hinfo) (h : list item),
   Forall (fun r => emits_ok c r /\ i_blobs r = content c da (i_height r)) (iterations c da h).
 Proof. exact emits_thm. Qed.
 Print Assumptions C09_emits_full.
 
-(* "arbitrary blob bytes never crash the scan" is FALSE of the code as it is: a SignedData blob signed by
-   the proposer, with at least one tx and no Metadata, makes handlePotentialData dereference nil
-   (retriever.go:181 signedData.Height()); the RetrieveLoop goroutine dies and the cursor stays. *)
-Theorem C09_no_crash_refuted : ~ (forall c da h, s_dead (final c da h) = false).
-Proof. exact no_crash_false. Qed.
-Print Assumptions C09_no_crash_refuted.
+(* Any blob list survives: when the fetch succeeds, processNextDAHeaderAndData returns nil for EVERY list of
+   blob classes (junk, empty, metadata-less, genuine mixed), hands over exactly the genuine unseen ones and
+   leaves the rest of the script untouched.  (Before "fix: retriever: signed data without metadata no longer
+   panics the DA scan" this was false: see known_findings.json, panic-signed-data-without-metadata.) *)
+Theorem C09_survives_any_blob_full : forall (c : cfg) (h : N) (bl : list blob) (outs : list outcome),
+  bl <> [] ->
+  let p := attempts c h bl retries (OOk :: outs) in
+  p_res p = PNil /\ p_events p = genuine_events c h bl /\ p_outs p = outs.
+Proof. exact survives_thm. Qed.
+Print Assumptions C09_survives_any_blob_full.
 
-(* Guard: no blob of class BDataNoMeta anywhere in the DA.  Then no iteration panics and the loop lives. *)
-Theorem C09_no_crash_partial : forall (c : cfg) (da : list hinfo) (h : list item),
-  poisoned da = false ->
-  s_dead (final c da h) = false /\ Forall (fun r => i_result r <> PPanic) (iterations c da h).
-Proof. exact no_crash_thm. Qed.
-Print Assumptions C09_no_crash_partial.
+(* The scan never stalls: every wake-up and every direct call is served — it examines at least the
+   cursor's height (a non-empty list of iterations, each of at most 10 attempts by C09_cursor_full) and
+   returns to waiting.  (The blocking send on a full event channel is outside the model.) *)
+Theorem C09_never_stalls_full : forall (c : cfg) (da : list hinfo) (h : list item),
+  length (snd (run c da h)) = length h /\ Forall (fun recs => recs <> []) (snd (run c da h)).
+Proof. exact served_thm. Qed.
+Print Assumptions C09_never_stalls_full.
 
 (* ---- non-vacuity -------------------------------------------------------------------------------------- *)
 Definition many (n : nat) : list blob := map (fun i => BJunk (N.of_nat i)) (seq 0 n).
@@ -106,13 +111,14 @@ Example ex_run :
     (8, [AFuture], PFuture, [], 8) ].
 Proof. vm_compute. reflexivity. Qed.
 
-Example ex_guard_met : poisoned ex_da = false /\ s_cursor (final ex_cfg ex_da [ISignal; ISignal]) = 8.
-Proof. vm_compute. split; reflexivity. Qed.
+Example ex_final_cursor : s_cursor (final ex_cfg ex_da [ISignal; ISignal]) = 8.
+Proof. vm_compute. reflexivity. Qed.
 
-(* the witness of C09_no_crash_refuted: the header before the poisonous blob is handed over, the data
-   after it is not, the loop is dead and a second wake-up does nothing *)
-Example ex_crash :
-  s_dead (final wit_cfg wit_da [ISignal]) = true /\
-  map (fun r => (i_height r, i_result r, i_events r, i_next r)) (iterations wit_cfg wit_da [ISignal; ISignal]) =
-  [ (7, PPanic, [EHeader 1 7], 7) ].
-Proof. vm_compute. split; reflexivity. Qed.
+(* the history that crashed the scan before the fix: the metadata-less signed data is skipped, the blobs
+   around it are handed over, the cursor moves on *)
+Definition wit_cfg : cfg := {| c_stored := 0; c_start := 7; c_seen_h := []; c_seen_d := [] |}.
+Definition wit_da : list hinfo := [ {| h_blobs := [BHeader 1; BDataNoMeta 2; BData 3]; h_outs := [OOk] |} ].
+Example ex_former_crash :
+  map (fun r => (i_height r, i_result r, i_events r, i_marks r, i_next r)) (iterations wit_cfg wit_da [ISignal; ISignal]) =
+  [ (7, PNil, [EHeader 1 7; EData 3 7], [MHeader 1 7; MData 3 7], 8); (8, PFuture, [], [], 8); (8, PFuture, [], [], 8) ].
+Proof. vm_compute. reflexivity. Qed.
